@@ -89,6 +89,15 @@ func gridCommands() [][]string {
 			}
 		}
 		add(cmd, "fleet", "MVT", "24", "51", "7")
+		if cmd == "INTERSECTS" {
+			// the commands HTTP GET /fleet/z/x/y.mvt|.pbf[?limit=|?sparse=] are rewritten to
+			for _, tile := range [][3]string{{"0", "0", "0"}, {"24", "51", "7"}, {"0", "1", "1"}, {"1", "0", "1"}, {"49", "103", "8"}, {"3", "3", "2"}} {
+				add(cmd, "fleet", "LIMIT", "100000000", "MVT", tile[0], tile[1], tile[2])
+				add(cmd, "fleet", "LIMIT", "2", "MVT", tile[0], tile[1], tile[2])
+				add(cmd, "fleet", "SPARSE", "3", "MVT", tile[0], tile[1], tile[2])
+			}
+			add(cmd, "nokey", "LIMIT", "100000000", "MVT", "0", "0", "0")
+		}
 		add(cmd, "fleet", "COUNT", "MVT", "0", "0", "0")
 		add(cmd, "fleet", "OBJECT", `{"type":"Polygon","coordinates":[[[-113,33],[-112,33],[-112,34],[-113,34],[-113,33]]]}`)
 	}
